@@ -427,7 +427,8 @@ SERVICE_J2 = 'src/nunavut/lang/py/templates/ServiceType.j2'
 
 def pin_c18model() -> typing.Tuple[bool, str]:
     """`_MODEL_` (the law restore (filter_pickle m) = m of Gen/PyModelAttr.v is about exactly this shape): shape pin on
-    filter_pickle (pickle.Pickler protocol 4 with the memoization-reset reducer of /repo 14e49e7 -> gzip.compress mtime=0 -> base64.b85encode -> decode -> strip -> 100-character
+    filter_pickle (pickle.Pickler protocol 4 whose reducer resets pydsdl's memoization wrappers (/repo 14e49e7) and maps every
+    pathlib.PurePath to the PurePosixPath relative to the parent of its root namespace directory (/repo b86b49b) -> gzip.compress mtime=0 -> base64.b85encode -> decode -> strip -> 100-character
     string literals joined by newlines), and a fail-closed text check of the two templates: `_MODEL_ = _restore_constant_(
     {{ <type> | pickle | indent(8) }} )` for the data classes and the service class, and `_restore_constant_` =
     pickle.loads(gzip.decompress(base64.b85decode(s))).  -> Generated/Gen_Pin_c18model.v"""
